@@ -734,6 +734,54 @@ func (m *c16) ops() []*c16Op {
 			return resp
 		}})
 
+	// requests the issuers REFUSE or may refuse (a blinded message not below the modulus, an element that is not a point,
+	// an unknown key id): whatever the verdict, the request bytes on the wire are the caller's and stay as they are - an
+	// issuer that "repairs" a value does so in a copy
+	add(&c16Op{name: "type2.TokenRequest.Unmarshal+Evaluate(hostile blinded message)", group: "type2", names: []string{"requestBytes"},
+		inputs: func(r *core.Rand) [][]byte {
+			N := rk[0].N
+			var msg []byte
+			switch r.IntN(5) {
+			case 0:
+				msg = bytes.Repeat([]byte{0xff}, 256)
+			case 1:
+				msg = N.FillBytes(make([]byte, 256))
+			case 2:
+				msg = new(big.Int).Add(N, big.NewInt(int64(1+r.IntN(1000)))).FillBytes(make([]byte, 256))
+			case 3:
+				msg = make([]byte, 256)
+			default:
+				msg = r.Bytes(256)
+				msg[0] |= 0xf0
+			}
+			return [][]byte{append([]byte{0, 2, iss2.TokenKeyID()[31]}, msg...)}
+		},
+		call: func(a [][]byte) []byte {
+			q := new(type2.BasicPublicTokenRequest)
+			if !q.Unmarshal(a[0]) {
+				return []byte("undecodable")
+			}
+			if _, err := iss2.Evaluate(q); err != nil {
+				return append([]byte("refused:"), q.Marshal()...)
+			}
+			return append([]byte("served:"), q.Marshal()...)
+		}})
+	add(&c16Op{name: "type1.TokenRequest.Unmarshal+Evaluate(hostile element)", group: "type1", names: []string{"requestBytes"},
+		inputs: func(r *core.Rand) [][]byte {
+			els := p384InvalidEncodings(r)
+			return [][]byte{append([]byte{0, 1, iss1.TokenKeyID()[31]}, els[r.IntN(len(els))]...)}
+		},
+		call: func(a [][]byte) []byte {
+			q := new(type1.BasicPrivateTokenRequest)
+			if !q.Unmarshal(a[0]) {
+				return []byte("undecodable")
+			}
+			if _, err := iss1.Evaluate(q); err != nil {
+				return append([]byte("refused:"), q.Marshal()...)
+			}
+			return append([]byte("served:"), q.Marshal()...)
+		}})
+
 	// ---- type 5
 	add(&c16Op{name: "type5.CreateTokenRequestWithBlinds", group: "type5", names: []string{"challenge", "nonce0", "nonce1", "tokenKeyID", "blind0", "blind1"},
 		inputs: func(r *core.Rand) [][]byte {
